@@ -263,6 +263,64 @@ def importFromAll (m : Option String) (level : Nat) (s : St) (names : List Alias
 
 def hasStar (names : List Alias) : Bool := names.any fun a => a.name == "*"
 
+/-- the builtin exception classes (Python 3.12; aliases such as `IOError` are left out: raising them is outside the core) -/
+def knownExcs : List String := ["ArithmeticError", "AssertionError", "AttributeError", "BaseException", "BaseExceptionGroup", "BlockingIOError", "BrokenPipeError", "BufferError", "BytesWarning", "ChildProcessError", "ConnectionAbortedError", "ConnectionError", "ConnectionRefusedError", "ConnectionResetError", "DeprecationWarning", "EOFError", "EncodingWarning", "Exception", "ExceptionGroup", "FileExistsError", "FileNotFoundError", "FloatingPointError", "FutureWarning", "GeneratorExit", "ImportError", "ImportWarning", "IndentationError", "IndexError", "InterruptedError", "IsADirectoryError", "KeyError", "KeyboardInterrupt", "LookupError", "MemoryError", "ModuleNotFoundError", "NameError", "NotADirectoryError", "NotImplementedError", "OSError", "OverflowError", "PendingDeprecationWarning", "PermissionError", "ProcessLookupError", "RecursionError", "ReferenceError", "ResourceWarning", "RuntimeError", "RuntimeWarning", "StopAsyncIteration", "StopIteration", "SyntaxError", "SyntaxWarning", "SystemError", "SystemExit", "TabError", "TimeoutError", "TypeError", "UnboundLocalError", "UnicodeDecodeError", "UnicodeEncodeError", "UnicodeError", "UnicodeTranslateError", "UnicodeWarning", "UserWarning", "ValueError", "Warning", "ZeroDivisionError"]
+
+/-- the builtin exception classes strictly between a builtin exception and `Exception` -/
+def excParents : String → List String
+  | "BlockingIOError" => ["OSError"]
+  | "BrokenPipeError" => ["ConnectionError", "OSError"]
+  | "BytesWarning" => ["Warning"]
+  | "ChildProcessError" => ["OSError"]
+  | "ConnectionAbortedError" => ["ConnectionError", "OSError"]
+  | "ConnectionError" => ["OSError"]
+  | "ConnectionRefusedError" => ["ConnectionError", "OSError"]
+  | "ConnectionResetError" => ["ConnectionError", "OSError"]
+  | "DeprecationWarning" => ["Warning"]
+  | "EncodingWarning" => ["Warning"]
+  | "ExceptionGroup" => ["BaseExceptionGroup"]
+  | "FileExistsError" => ["OSError"]
+  | "FileNotFoundError" => ["OSError"]
+  | "FloatingPointError" => ["ArithmeticError"]
+  | "FutureWarning" => ["Warning"]
+  | "ImportWarning" => ["Warning"]
+  | "IndentationError" => ["SyntaxError"]
+  | "IndexError" => ["LookupError"]
+  | "InterruptedError" => ["OSError"]
+  | "IsADirectoryError" => ["OSError"]
+  | "KeyError" => ["LookupError"]
+  | "ModuleNotFoundError" => ["ImportError"]
+  | "NotADirectoryError" => ["OSError"]
+  | "NotImplementedError" => ["RuntimeError"]
+  | "OverflowError" => ["ArithmeticError"]
+  | "PendingDeprecationWarning" => ["Warning"]
+  | "PermissionError" => ["OSError"]
+  | "ProcessLookupError" => ["OSError"]
+  | "RecursionError" => ["RuntimeError"]
+  | "ResourceWarning" => ["Warning"]
+  | "RuntimeWarning" => ["Warning"]
+  | "SyntaxWarning" => ["Warning"]
+  | "TabError" => ["IndentationError", "SyntaxError"]
+  | "TimeoutError" => ["OSError"]
+  | "UnboundLocalError" => ["NameError"]
+  | "UnicodeDecodeError" => ["UnicodeError", "ValueError"]
+  | "UnicodeEncodeError" => ["UnicodeError", "ValueError"]
+  | "UnicodeError" => ["ValueError"]
+  | "UnicodeTranslateError" => ["UnicodeError", "ValueError"]
+  | "UnicodeWarning" => ["Warning"]
+  | "UserWarning" => ["Warning"]
+  | "ZeroDivisionError" => ["ArithmeticError"]
+  | _ => []
+
+/-- the builtin exceptions that `except Exception` does not catch -/
+def excBaseOnly : List String := ["BaseException", "BaseExceptionGroup", "GeneratorExit", "KeyboardInterrupt", "SystemExit"]
+
+/-- the builtin exception classes whose constructor needs arguments: `raise N` / `raise N()` raise `TypeError` -/
+def excNeedsArgs : List String := ["BaseExceptionGroup", "ExceptionGroup", "UnicodeDecodeError", "UnicodeEncodeError", "UnicodeTranslateError"]
+
+/-- what `raise N` raises -/
+def raisedBy (n : String) : String := if excNeedsArgs.contains n then "TypeError" else n
+
 /-- statements without a nested block and without a call of a table function -/
 def simpleExec (s : St) : Stmt → Res Flow
   | .pass => .ok (.normal s)
@@ -286,7 +344,7 @@ def simpleExec (s : St) : Stmt → Res Flow
   | .importFrom m names level => if hasStar names then .stuck else .ok (.normal (importFromAll m level s names))
   | .raise_ e c =>
     (match raiseName e c with
-     | some n => .raised n s
+     | some n => if knownExcs.contains n then .raised (raisedBy n) s else .stuck     -- only builtin exception classes are raised by name
      | none => .stuck)
   | _ => .stuck
 
@@ -307,36 +365,20 @@ def excKind : Option Expr → ExcPat
   | some (.tuple es) => (match nameList es with | some ns => .names ns | none => .unknown)
   | some e => (match nameOf e with | some (x, _) => .names [x] | none => .unknown)
 
-/-- the builtin exception classes strictly between a builtin exception and `Exception` -/
-def excParents : String → List String
-  | "ZeroDivisionError" => ["ArithmeticError"]
-  | "OverflowError" => ["ArithmeticError"]
-  | "FloatingPointError" => ["ArithmeticError"]
-  | "KeyError" => ["LookupError"]
-  | "IndexError" => ["LookupError"]
-  | "UnboundLocalError" => ["NameError"]
-  | "NotImplementedError" => ["RuntimeError"]
-  | "RecursionError" => ["RuntimeError"]
-  | "ModuleNotFoundError" => ["ImportError"]
-  | "FileNotFoundError" => ["OSError"]
-  | "PermissionError" => ["OSError"]
-  | "TimeoutError" => ["OSError"]
-  | "UnicodeError" => ["ValueError"]
-  | "UnicodeDecodeError" => ["UnicodeError", "ValueError"]
-  | "UnicodeEncodeError" => ["UnicodeError", "ValueError"]
-  | "IndentationError" => ["SyntaxError"]
-  | _ => []
-
 /-- does a handler (type pattern, `as` name) catch the raised name: `some true` / `some false`; `none` = outside the
     core (binding the exception object, a type that is not a name or a tuple of names).  Exception classes are
-    matched by name; `Exception` / `BaseException` catch everything the core can raise. -/
+    matched by name, with the builtin hierarchy (`excParents`); a handler naming anything but a builtin exception class
+    is outside the core. -/
 def catches (p : ExcPat) (asName : Option String) (x : String) : Option Bool :=
   match asName with
   | some _ => none
   | none =>
     match p with
     | .any => some true
-    | .names ns => some (ns.contains x || (excParents x).any ns.contains || ns.contains "Exception" || ns.contains "BaseException")
+    | .names ns =>
+      if ns.all knownExcs.contains then
+        some (ns.contains x || (excParents x).any ns.contains || (ns.contains "Exception" && !excBaseOnly.contains x) || ns.contains "BaseException")
+      else none
     | .unknown => none
 
 /-- the state an outcome carries (`none` for stuck / timeout) -/
